@@ -126,6 +126,18 @@ func (te *tableEval) sliceUsesOK(s *ssa.Slice) error {
 			if b, ok := r.Call.Value.(*ssa.Builtin); ok && (b.Name() == "append" || b.Name() == "len" || b.Name() == "cap") {
 				continue
 			}
+			if callee := r.Call.StaticCallee(); callee != nil && te.p.InModule(callee) {
+				// handed to a helper that only reads it (a variadic list of candidates that is ranged over)
+				ro := true
+				for i, a := range r.Call.Args {
+					if a == ssa.Value(s) && !(i < len(callee.Params) && sliceParamReadOnly(callee.Params[i])) {
+						ro = false
+					}
+				}
+				if ro {
+					continue
+				}
+			}
 			return fmt.Errorf("%s: table literal passed to %s", te.p.pos(r.Pos()), r.Call.Value)
 		case *ssa.IndexAddr:
 			for _, rr := range *r.Referrers() {
@@ -401,4 +413,32 @@ func (p *Prog) LoadTables() (*Tables, error) {
 		t.RangePos = append(t.RangePos, fp)
 	}
 	return t, nil
+}
+
+// sliceParamReadOnly: the slice parameter is only measured and read element-wise in its function.
+func sliceParamReadOnly(prm *ssa.Parameter) bool {
+	for _, r := range *prm.Referrers() {
+		switch r := r.(type) {
+		case *ssa.Call:
+			if b, ok := r.Call.Value.(*ssa.Builtin); !ok || (b.Name() != "len" && b.Name() != "cap") {
+				return false
+			}
+		case *ssa.IndexAddr:
+			for _, rr := range *r.Referrers() {
+				switch x := rr.(type) {
+				case *ssa.UnOp:
+					if x.Op != token.MUL {
+						return false
+					}
+				case *ssa.DebugRef:
+				default:
+					return false
+				}
+			}
+		case *ssa.DebugRef:
+		default:
+			return false
+		}
+	}
+	return true
 }
